@@ -113,6 +113,19 @@ def run(tier):
     rng.shuffle(suniq)
     suniq.sort(key=lambda b: not b["ov"])           # schedules in which threads really overlap first
     suniq = suniq[: (1200 if thorough else 160)]
+    # transition cover of the concurrent model (CoverSimpleDBConc.tla): one shortest schedule per abstract transition (who is where, who holds the lock,
+    # flusher / compactor stage, which layer answers each key; thread + step); prefixes dropped; schedules with overlapping threads first
+    cov, _ = judge.gen_behaviours("CoverSimpleDBConc.tla", "Cover_SimpleDB_conc_t.cfg" if thorough else "Cover_SimpleDB_conc_q.cfg", workers=1, tag="COV",
+                                  timeout=3000, outcome=o, what="transition cover of the concurrent model (one schedule per abstract transition)")
+    cpaths = {tuple(json.dumps(e, sort_keys=True) for e in b["h"]): b["ov"] for b in cov}
+    cprefix = {p[:i] for p in cpaths for i in range(1, len(p))}
+    ckeep = sorted((p for p in cpaths if p not in cprefix), key=lambda p: (not cpaths[p], p))
+    ncover_all = len(ckeep)
+    if not thorough:
+        ckeep = [p for p in ckeep if cpaths[p]] + [p for p in ckeep if not cpaths[p]][::4]
+    suniq += [{"h": [json.loads(e) for e in p], "ov": cpaths[p]} for p in ckeep]
+    log("[C05] transition cover of the concurrent model: %d abstract transitions, %d schedules after dropping prefixes, %d replayed" % (len(cov), ncover_all, len(ckeep)))
+    o.extra["transition_cover_concurrent"] = {"abstract_transitions": len(cov), "schedules": ncover_all, "replayed": len(ckeep)}
     scases = [dbgen.beh_to_sched(b["h"]) for b in suniq]
     nsb = 8
     sjobs = [("sched-%d" % i, scases[i::nsb], {"GOMAXPROCS": str([1, 2, 4, 16][i % 4])}) for i in range(nsb) if scases[i::nsb]]
